@@ -99,14 +99,29 @@ func init() {
 		},
 		Gen: func(r *hx.Rand, i int) interface{} {
 			in := grpcIn{}
+			// option values of a route command cannot hold blanks: items are joined without spaces
+			rule := func(bad bool) string {
+				n := 1 + r.Intn(3)
+				items := make([]string, n)
+				for i := range items {
+					items[i] = r.Pick([]string{"ip", "IP", "Ip"}) + ":" + r.Pick(append([]string{"127.0.0.0/8", "127.0.0.1", "::1", "127.0.0.2", "::ffff:127.0.0.0/104"}, goodBlocks...))
+				}
+				if bad {
+					items[r.Intn(n)] = r.Pick([]string{"ip:127.0.0.1/33", "foo:127.0.0.1", "ip:bad", "127.0.0.1", "ip:", "ip:fe80::1%eth0"})
+				}
+				return strings.Join(items, ",")
+			}
 			switch r.Intn(6) {
 			case 0:
 			case 1:
-				in.Allow = r.Pick([]string{"ip:127.0.0.1/33", "foo:127.0.0.1", "ip:bad,ip:127.0.0.1"})
+				in.Allow = rule(true)
+				if r.Chance(1, 3) {
+					in.Allow, in.Deny = "", in.Allow
+				}
 			case 2, 3:
-				in.Allow = r.Pick([]string{"ip:127.0.0.0/8", "ip:10.0.0.0/8", "ip:::1", "ip:127.0.0.1", "ip:0.0.0.0/0"})
+				in.Allow = rule(false)
 			default:
-				in.Deny = r.Pick([]string{"ip:127.0.0.1", "ip:9.9.9.9", "ip:127.0.0.0/8,ip:::/0", "ip:10.0.0.0/8"})
+				in.Deny = rule(false)
 			}
 			if r.Chance(1, 4) {
 				in.Scheme = r.Pick([]string{"basic", "nope"})
